@@ -36,7 +36,9 @@ EXPLANATION = (
 
 DIRS = ("z", "pz", "pp")
 COQDIR = {"z": "Dz", "pz": "Dpz", "pp": "Dpp"}
-TOL = 2e-9
+TOL = 2e-11       # ~50-100x the rounding of the worst configuration (M=30 derivative matrices)
+_DS = [1.0]        # scale of the input data of the current configuration (max |coefficient|)
+MARGIN = {}        # worst |error| / tolerance per check family (goes into the evidence)
 
 
 # ----------------------------------------------------------------------------------
@@ -145,8 +147,15 @@ def close(a, b, scale=None):
     if a.shape != b.shape:
         return False
     if scale is None:
-        scale = 1.0 + (np.max(np.abs(b)) if b.size else 0.0)
-    return bool(np.all(np.abs(a - b) <= TOL * scale))
+        scale = _DS[0] + (np.max(np.abs(b)) if b.size else 0.0)
+    err = float(np.max(np.abs(a - b))) if a.size else 0.0
+    if not np.isfinite(err):
+        return False
+    import sys
+    fam = sys._getframe(1).f_code.co_name
+    if scale > 0:
+        MARGIN[fam] = max(MARGIN.get(fam, 0.0), err / (TOL * scale))
+    return bool(err <= TOL * scale)
 
 
 # ----------------------------------------------------------------------------------
@@ -162,6 +171,8 @@ def make_grid(M, N, kind="plain"):
     from WallGo.grid3Scales import Grid3Scales
     if kind == "plain":
         return Grid(M, N, 1.0, 1.0)
+    if kind == "uniform":          # equidistant nodes: everything but the quadrature applies
+        return Grid(M, N, 1.0, 1.0, spacing="Uniform")
     if kind == "rescaled":
         g = Grid(M, N, 1.0, 1.0)
         g.changeMomentumFalloffScale(2.5)
@@ -260,6 +271,7 @@ def direct_config(ctx, spec, rng):
                             for i, o in enumerate(orc)])
 
     n = 0
+    _DS[0] = float(max(np.max(np.abs(A)), 1.0))   # integer data: unit scale (other magnitudes: direct_scales, purely relative)
     gsnap = grid_arrays(grid)
     # --- change of basis: target = every axis swapped; then back (round trip) --------
     swapped = tuple(other_basis(b) for b in b0)
@@ -311,7 +323,7 @@ def direct_config(ctx, spec, rng):
         pb.changeBasis(swapped)
         after = float(np.sum(pa.coefficients * pb.coefficients))
         n += 1
-        if not abs(before - after) <= TOL * (1.0 + np.sum(np.abs(Adual)) *
+        if not abs(before - after) <= TOL * (_DS[0] + np.sum(np.abs(Adual)) *
                                              np.max(np.abs(pb.coefficients))):
             fail("changeBasis(inverseTranspose=True) is not the dual of changeBasis",
                  "inverseTranspose-duality", before=before, after=after)
@@ -390,7 +402,7 @@ def direct_config(ctx, spec, rng):
                                          (o.dE([y[polyaxes.index(i)]])[0] if i in axes else
                                           o.E([y[polyaxes.index(i)]])[0])
                                          for i, o in enumerate(orc)])
-                    okc = close(got, wantc, scale=1.0 + np.max(np.abs(want)))
+                    okc = close(got, wantc, scale=_DS[0] + np.max(np.abs(want)))
                 elif kind == "second":
                     j = axes[rng.randrange(len(axes))]
                     d2 = dp.derivative(j)
@@ -398,7 +410,7 @@ def direct_config(ctx, spec, rng):
                                          (o.D2 if i == j else o.D if i in axes
                                           else o.coeffs(basis[i]))
                                          for i, o in enumerate(orc)])
-                    okc = close(d2.coefficients, wantc, scale=1.0 + 20 * np.max(np.abs(
+                    okc = close(d2.coefficients, wantc, scale=_DS[0] + 20 * np.max(np.abs(
                         want))) and d2.endpoints[j] is True and d2.basis[j] == "Cardinal"
                 else:
                     tgt = tuple("Chebyshev" if b != "Array" else b for b in dp.basis)
@@ -411,9 +423,9 @@ def direct_config(ctx, spec, rng):
                          "chain-derivative-" + kind, axes=list(axes), basis=list(basis))
     except Exception as ex:  # noqa: BLE001
         fail("derivative raised %r" % ex, "derivative-raises")
-    # --- integration on the exactness class -------------------------------------------
+    # --- integration on the exactness class (Gauss-Lobatto nodes only) -----------------
     try:
-        for axes in ([(i,) for i in polyaxes] + ([tuple(polyaxes)]
+        for axes in ([] if spec.get("grid") == "uniform" else[(i,) for i in polyaxes] + ([tuple(polyaxes)]
                                                  if len(polyaxes) > 1 else [])):
             rows = {}
             weight = np.ones([1] * rank)
@@ -459,7 +471,7 @@ def direct_config(ctx, spec, rng):
                 want = contract(A2, [None if o is None else
                                      (rows[i] if i in axes else o.coeffs(lab[i]))
                                      for i, o in enumerate(orc)])
-                sci = 1.0 + np.max(np.abs(want)) + np.max(np.abs(A2)) * 10
+                sci = _DS[0] + np.max(np.abs(want)) + np.max(np.abs(A2)) * 10
                 if not okmeta or not close(got, want, scale=sci):
                     fail("integrate along %s is not exact on the exactness class%s" % (
                         axes, "" if okmeta else " (labels / type of the result)"),
@@ -533,7 +545,7 @@ def direct_config(ctx, spec, rng):
                     if not same_poly("integrate(%s)" % ",".join(kw), False):
                         break
                 n += 1
-                sc = 1.0 + np.max(np.abs(A)) * 10 + np.max(np.abs(want))
+                sc = _DS[0] + np.max(np.abs(A)) * 10 + np.max(np.abs(want))
                 if not all(close(v, want, scale=sc) for v in vals):
                     fail("integrate without weight / weight=None / weight=1 / repeated "
                          "give different or wrong values", "integrate-default-weight",
@@ -572,9 +584,13 @@ def direct_config(ctx, spec, rng):
     n += direct_matrices(ctx, spec, grid, orc, rng, fail)
     n += direct_dtypes(ctx, spec, grid, orc, rng, fail)
     n += direct_forms(ctx, spec, grid, orc, A, rng, fail)
+    n += direct_points(ctx, spec, grid, orc, A, rng, fail)
+    n += direct_scales(ctx, spec, grid, orc, rng, fail)
+    n += direct_weights(ctx, spec, grid, orc, A, rng, fail)
     # the grid's own arrays (nodes, physical coordinates, Jacobians) are untouched by all of it
     n += 1
     gnow = grid_arrays(grid)
+    n += direct_rescale(ctx, spec, rng, fail)
     if set(gnow) != set(gsnap) or any(not np.array_equal(gnow[k], gsnap[k], equal_nan=True)
                                       for k in gsnap):
         fail("an operation of Polynomial changed an array of the grid: %s" % sorted(
@@ -714,6 +730,9 @@ def direct_dtypes(ctx, spec, grid, orc, rng, fail):
             n += 1
             g = got[op]
             if isinstance(want, Exception):
+                if kind == kinds[0]:
+                    fail("%s on float64 coefficients raised %r" % (op, want), "dtype-raises",
+                         op=op)
                 continue
             if isinstance(g, Exception):
                 integer = kind in ("list-int", "int64", "int32")
@@ -729,7 +748,7 @@ def direct_dtypes(ctx, spec, grid, orc, rng, fail):
                          "dtype-raises", container=kind, op=op,
                          C=Cf.astype(int).ravel().tolist())
                 continue
-            tol_scale = (1.0 + np.max(np.abs(want))) * (2e4 if kind == "float32" else 1.0)
+            tol_scale = (_DS[0] + np.max(np.abs(want))) * (2e6 if kind == "float32" else 1.0)
             if not close(g, want, scale=tol_scale):
                 fail("%s on coefficients given as %s differs from the result for the same "
                      "numbers as float64" % (op, kind), "dtype-" + op, container=kind,
@@ -820,7 +839,7 @@ def direct_forms(ctx, spec, grid, orc, A, rng, fail):
         for form, call in forms:
             r = call()
             n += 1
-            if type(r) is not type(i_ref) or not close(val(r), val(i_ref), scale=1.0 + np.max(
+            if type(r) is not type(i_ref) or not close(val(r), val(i_ref), scale=_DS[0] + np.max(
                     np.abs(coeff)) * 10):
                 fail("integrate with %s differs from the tuple form" % form,
                      "forms-integrate")
@@ -884,6 +903,190 @@ def direct_forms(ctx, spec, grid, orc, A, rng, fail):
 
 
 
+# ----------------------------------------------------------------------------------
+# many evaluation points (interpolateCollisionArray evaluates (N-1)^2 = 100..400 points on a
+# rank-6 array), magnitude of the coefficients, general weights, re-scaled grids
+
+POINT_COUNTS = (1, 2, 31, 63, 64, 65, 100, 127, 128, 129, 255, 257, 400)
+
+
+def oracle_many(A, orc, polyaxes, pts):
+    """values at many points, vectorised: result[t, spectators...]"""
+    R = np.broadcast_to(A, (pts.shape[1],) + A.shape)
+    for j, i in reversed(list(enumerate(polyaxes))):
+        R = np.einsum("t...k,tk->t...", np.moveaxis(R, i + 1, -1), orc[i].E(pts[j]))
+    return R
+
+
+def direct_points(ctx, spec, grid, orc, A, rng, fail):
+    b0, dirs, eps = tuples(spec)
+    polyaxes = [i for i, o in enumerate(orc) if o is not None]
+    if not polyaxes or A.size > 3000:
+        return 0
+    n = 0
+    swapped = tuple(other_basis(b) for b in b0)
+    try:
+        for basis in (b0, swapped):
+            k = rng.choice(POINT_COUNTS)
+            pts = np.array([[rng.uniform(-1, 1) for _ in range(k)] for _ in polyaxes])
+            p = make_poly(spec, grid, orc, A, basis)
+            got = p.evaluate(pts, axes=tuple(polyaxes))
+            want = oracle_many(A, orc, polyaxes, pts)
+            n += 1
+            if not close(got, want):
+                bad = int(np.sum(np.any(np.abs(np.asarray(got, dtype=float).reshape(k, -1) -
+                                               want.reshape(k, -1)) >
+                                        TOL * (_DS[0] + np.max(np.abs(want))), axis=1))) \
+                    if np.shape(got) == want.shape else k
+                fail("evaluate at %d points is wrong at %d of them (basis %s)" % (
+                    k, bad, basis), "evaluate-many-points", npoints=k, basis=list(basis),
+                     points=pts.tolist())
+                continue
+            # the same points one by one and in two halves
+            for j in sorted({0, k - 1, k // 2, min(k - 1, 64)}):
+                one = p.evaluate(pts[:, [j]], axes=tuple(polyaxes))
+                n += 1
+                if not close(one[0], got[j]):
+                    fail("evaluate at %d points differs from the same point evaluated alone"
+                         % k, "evaluate-many-points", npoints=k, index=j)
+    except Exception as ex:  # noqa: BLE001
+        fail("evaluate at many points raised %r" % ex, "evaluate-many-raises")
+    return n
+
+
+SCALES = (1e-200, 1e-16, 1e-13, 1e-8, 1e-3, 1e5, 1e12, 1e150)
+
+
+def direct_scales(ctx, spec, grid, orc, rng, fail):
+    """homogeneity: every operation on s*c equals s times the operation on c, to rounding
+    relative to s (non-integer coefficients, 17 orders of magnitude and the extremes)"""
+    from WallGo.polynomial import Polynomial
+    b0, dirs, eps = tuples(spec)
+    rank = len(orc)
+    polyaxes = [i for i, o in enumerate(orc) if o is not None]
+    if not polyaxes:
+        return 0
+    shape = [o.size if o is not None else spec["axes"][i]["size"] for i, o in enumerate(orc)]
+    c = np.array([rng.uniform(-1, 1) for _ in range(int(np.prod(shape)))]).reshape(shape)
+    swapped = tuple(other_basis(b) for b in b0)
+    pts = np.array([[rng.uniform(-1, 1) for _ in range(2)] for _ in polyaxes])
+
+    def ops(coeff):
+        out = {}
+        p = Polynomial(coeff.copy(), grid, b0, dirs, eps)
+        p.changeBasis(swapped)
+        out["changeBasis"] = np.array(p.coefficients)
+        p.changeBasis(b0)
+        out["roundtrip"] = np.array(p.coefficients)
+        out["evaluate"] = np.array(p.evaluate(pts, axes=tuple(polyaxes)))
+        out["derivative"] = np.array(p.derivative(tuple(polyaxes)).coefficients)
+        q = Polynomial(coeff.copy(), grid, swapped, dirs, eps)
+        r = q.integrate(tuple(polyaxes))
+        out["integrate"] = np.array(r.coefficients if isinstance(r, Polynomial) else r)
+        return out
+
+    n = 0
+    old = _DS[0]
+    try:
+        ref = ops(c)
+        n += 1
+        _DS[0] = 1.0
+        if not close(ref["roundtrip"], c):
+            fail("changeBasis round trip of non-integer coefficients", "roundtrip")
+        for s in (SCALES if rank == 1 else rng.sample(SCALES, 3)):
+            got = ops(s * c)
+            for op, want in ref.items():
+                n += 1
+                _DS[0] = 0.0
+                amp = max(np.max(np.abs(want)), np.max(np.abs(c)))
+                if not close(got[op], s * want, scale=s * amp * 50):
+                    fail("%s is not homogeneous: on %.0e * c it differs from %.0e * (result "
+                         "for c) by %.1e relative to the scale" % (
+                             op, s, s, np.max(np.abs(got[op] - s * want)) / (s * amp)),
+                         "scale-" + op, scale=s, c=c.ravel().tolist())
+    except Exception as ex:  # noqa: BLE001
+        fail("operations on scaled coefficients raised %r" % ex, "scale-raises")
+    finally:
+        _DS[0] = old
+    return n
+
+
+def direct_weights(ctx, spec, grid, orc, A, rng, fail):
+    """integrate with a weight that depends on every axis (not a product of per-axis
+    factors), a scalar weight and a nested-list weight, against numpy alone"""
+    from WallGo.polynomial import Polynomial
+    b0, dirs, eps = tuples(spec)
+    rank = len(orc)
+    polyaxes = [i for i, o in enumerate(orc) if o is not None]
+    if not polyaxes:
+        return 0
+    n = 0
+    try:
+        sub = tuple(sorted(rng.sample(polyaxes, rng.randint(1, len(polyaxes)))))
+        p = make_poly(spec, grid, orc, A)
+        W = np.array([rng.uniform(0.5, 2.0) for _ in range(A.size)]).reshape(
+            p.coefficients.shape)
+        card = contract(A, [None if o is None else (o.V if i in sub else o.coeffs(b0[i]))
+                            for i, o in enumerate(orc)])
+        fac = [None if i not in sub else np.pi / quad_n(o.M, o.N, o.d) *
+               np.sqrt(np.clip(1 - o.nodes ** 2, 0, None)) for i, o in enumerate(orc)]
+        val = lambda r: r.coefficients if isinstance(r, Polynomial) else r   # noqa: E731
+        sc = _DS[0] * 30 + np.max(np.abs(card)) * 30
+        for form, w, want in (("full-shape array", W, contract(W * card, fac)),
+                              ("nested list", W.tolist(), contract(W * card, fac)),
+                              ("scalar 2.5", 2.5, contract(2.5 * card, fac))):
+            r = make_poly(spec, grid, orc, A).integrate(sub if len(sub) > 1 else sub[0], w)
+            n += 1
+            if not close(val(r), want, scale=sc):
+                fail("integrate along %s with a %s weight is not sum_k w_k c_k sqrt(1-x_k^2) "
+                     "pi/n" % (sub, form), "integrate-general-weight", axes=list(sub))
+    except Exception as ex:  # noqa: BLE001
+        fail("integrate with a general weight raised %r" % ex, "integrate-weight-raises")
+    return n
+
+
+def direct_rescale(ctx, spec, rng, fail):
+    """re-scaling the grid between two operations on one object changes nothing (the
+    compact coordinates do not depend on the scales)"""
+    from WallGo.polynomial import Polynomial
+    sp = {k: v for k, v in spec.items() if k != "A"}
+    grid, orc, A = build(sp, rng)
+    b0, dirs, eps = tuples(sp)
+    polyaxes = [i for i, o in enumerate(orc) if o is not None]
+    if not polyaxes:
+        return 0
+    n = 0
+    try:
+        p = make_poly(sp, grid, orc, A)
+        pts = np.array([[rng.uniform(-1, 1) for _ in range(3)] for _ in polyaxes])
+        before = (p.evaluate(pts, axes=tuple(polyaxes)),
+                  p.derivative(tuple(polyaxes)).coefficients)
+        grid.changeMomentumFalloffScale(rng.uniform(0.2, 5.0))
+        if type(grid).__name__ == "Grid3Scales":
+            th = rng.uniform(0.2, 1.0)      # tails >= 2.4 * thickness (asserted by the grid)
+            grid.changePositionFalloffScale(th * rng.uniform(2.5, 5), th * rng.uniform(2.5, 5),
+                                            th, rng.uniform(-0.5, 0.5))
+        else:
+            grid.changePositionFalloffScale(rng.uniform(0.2, 5.0))
+        after = (p.evaluate(pts, axes=tuple(polyaxes)),
+                 p.derivative(tuple(polyaxes)).coefficients)
+        swapped = tuple(other_basis(b) for b in b0)
+        p.changeBasis(swapped)
+        n += 3
+        if not (np.array_equal(before[0], after[0]) and np.array_equal(before[1], after[1])):
+            fail("re-scaling the grid between two calls changes evaluate / derivative",
+                 "rescale-between-operations")
+        if not close(p.coefficients, contract(A, [None if o is None else o.coeffs(swapped[i])
+                                                  for i, o in enumerate(orc)])):
+            fail("changeBasis after re-scaling the grid is wrong",
+                 "rescale-between-operations")
+    except Exception as ex:  # noqa: BLE001
+        fail("operations around a re-scaling of the grid raised %r" % ex, "rescale-raises")
+    return n
+
+
+
+
 def gen_specs(ctx, rng):
     """exhaustive rank 1; sampled mixed ranks 2..4"""
     sizes_all = [(M, N) for M in range(2, 9) for N in (3, 5, 7, 9)]
@@ -917,6 +1120,23 @@ def gen_specs(ctx, rng):
                 specs.append(dict(M=M, N=N, grid=rng.choice(GRID_KINDS), axes=[
                     dict(kind="poly", d=d, ep=ep,
                          basis=rng.choice(["Cardinal", "Chebyshev"]))]))
+    # even N, M = 1, equidistant nodes
+    for (M, N) in [(1, 3), (1, 4), (3, 4), (5, 6), (4, 8)]:
+        for d in DIRS:
+            for ep in (False, True):
+                if axis_size(M, N, d, ep) < 1:
+                    continue
+                specs.append(dict(M=M, N=N, axes=[dict(
+                    kind="poly", d=d, ep=ep, basis=rng.choice(["Cardinal", "Chebyshev"]))]))
+    for (M, N) in [(3, 3), (4, 5), (6, 7), (5, 4)]:
+        for d in DIRS:
+            for ep in (False, True):
+                specs.append(dict(M=M, N=N, grid="uniform", axes=[dict(
+                    kind="poly", d=d, ep=ep, basis=rng.choice(["Cardinal", "Chebyshev"]))]))
+        specs.append(dict(M=M, N=N, grid="uniform", axes=[
+            dict(kind="poly", d="z", ep=False, basis="Chebyshev"),
+            dict(kind="array", size=4),
+            dict(kind="poly", d="pp", ep=rng.random() < 0.5, basis="Cardinal")]))
     # ranks 5 and 6 (the collision array is rank 6: (Array, pz, pp, Array, pz, pp))
     specs.append(dict(M=3, N=3, grid="3scales", axes=[
         dict(kind="array", size=2), dict(kind="poly", d="pz", ep=False, basis="Cardinal"),
@@ -1071,7 +1291,7 @@ def corr_matrices(ctx, sizes):
             for ep in (False, True):
                 size = axis_size(M, N, d, ep)
                 p = Polynomial(np.zeros(size), grid, "Cardinal", d, ep)
-                tol = cq(Fraction(1, 10 ** 9))
+                tol = cq(Fraction(1, 10 ** 12))       # O(1) entries, errors ~1e-15
                 cd, D = COQDIR[d], "true" if ep else "false"
                 # tnMatrix of changeBasis
                 q = Polynomial(np.identity(size), grid, ("Chebyshev", "Array"), (d, "z"),
@@ -1092,7 +1312,7 @@ def corr_matrices(ctx, sizes):
                 info.append(("cardinalMatrix", M, N, d, ep))
                 for b in ("Cardinal", "Chebyshev"):
                     terms.append("Mclose %s (derivMatrix QO %s %s %s %s) %s" % (
-                        cq(Fraction(M * M * N * N, 10 ** 9)), b, cd, D, g,
+                        cq(Fraction(M * M * N * N, 10 ** 13)), b, cd, D, g,
                         qmat(p.derivMatrix(b, d, ep))))
                     info.append(("derivMatrix" + b, M, N, d, ep))
                     # rows of evaluate at an off-grid, a grid and a boundary point
@@ -1124,7 +1344,7 @@ def corr_tensor_terms(ctx, spec, rng):
     b0, dirs, eps = tuples(spec)
     rank = len(orc)
     polyaxes = [i for i, o in enumerate(orc) if o is not None]
-    tol = cq(Fraction(int(1 + np.max(np.abs(A))) * 50 * M * M * N * N, 10 ** 9))
+    tol = cq(Fraction(int(1 + np.max(np.abs(A))) * 50 * M * M * N * N, 10 ** 12))
     terms = []
 
     def g(i):
@@ -1262,6 +1482,11 @@ def run(ctx):
                 "run and decide whether an input fails):", e)
         ctx.broken.append("translator-out-of-subset: %s" % e)
         gen_ok = False
+    except Exception as e:  # noqa: BLE001   (the direct validation below must run anyway)
+        import traceback
+        ctx.log("fact extractor crashed:", traceback.format_exc())
+        ctx.broken.append("translator-crashed: %r" % e)
+        gen_ok = False
     if gen_ok:
         ctx.prove(extra=["PolyCfg.v"])
     ctx.trusted += ["tools/gen_poly.py (AST fact extractor, fail-closed)",
@@ -1312,6 +1537,10 @@ def run(ctx):
             ctx.count("direct", None)
         ctx.count("direct_config", spec, bucket="rank%d" % len(spec["axes"]))
     ctx.sample(dict(direct_checks=nchecks))
+    ctx.cov["margins"] = dict(
+        note="worst |error| / tolerance per family of direct checks (tolerance = 2e-11 x "
+             "(data scale + |expected|); homogeneity checks purely relative)",
+        worst={k: float("%.3g" % v) for k, v in sorted(MARGIN.items())})
     ctx.cov["rule"] = (
         "configuration = (M in 2..8, N in {3,5,7,9} plus production-like sizes up to M=30, "
         "N=21 at rank 1; grid = Grid / Grid3Scales / either after the re-scaling calls; per "
